@@ -132,6 +132,32 @@ class Closure:
         self.cls = cls
 
 
+class SymArr:
+    """array of symbolic length: shape (z3 ints / python ints), element function of the index tuple.
+    Used for index tables (s2p_map, permutations, ...); elements are z3 terms."""
+
+    def __init__(self, shape, fn, why=""):
+        self.shape = tuple(shape)
+        self.fn = fn
+        self.why = why
+
+    def at(self, *idx):
+        return self.fn(*idx)
+
+
+class SymFn:
+    """mapping given as a function (dict with symbolic keys)"""
+
+    def __init__(self, fn, why=""):
+        self.fn = fn
+        self.why = why
+
+
+class SymEnum:
+    def __init__(self, arr):
+        self.arr = arr
+
+
 class SuperRef:
     def __init__(self, self_ref, cls):
         self.self_ref = self_ref
@@ -861,6 +887,27 @@ class PyExec:
             g = n.generators[0]
             out = []
             itv = self.eval(st, g.iter, env)
+            if isinstance(itv, (SymArr, SymEnum)):
+                arr = itv.arr if isinstance(itv, SymEnum) else itv
+                gi = z3.Int("gi!%d" % next(Ref._ids))
+                n_ = num(arr.shape[0])
+                e2 = dict(env)
+                item = arr.fn(gi) if len(arr.shape) == 1 else SymArr(arr.shape[1:], (lambda *sub, arr=arr, gi=gi: arr.fn(gi, *sub)), "row")
+                self.assign(st, g.target, (gi, item) if isinstance(itv, SymEnum) else item, e2)
+                npc = len(st.pc)
+                st.pc.append(z3.And(gi >= 0, gi < n_))
+                self.generic_vars = getattr(self, "generic_vars", []) + [gi]
+                try:
+                    val = self.eval(st, n.elt, e2)
+                finally:
+                    self.generic_vars = self.generic_vars[:-1]
+                new_facts = st.pc[npc + 1:]
+                del st.pc[npc:]
+                # facts produced while evaluating the generic element hold for every index (library contracts)
+                for f_ in new_facts:
+                    st.pc.append(z3.ForAll([gi], z3.Implies(z3.And(gi >= 0, gi < n_), f_)))
+                v_ = num(val)
+                return SymArr((arr.shape[0],), (lambda idx, v_=v_, gi=gi: z3.substitute(v_, (gi, num(idx)))), "list comprehension")
             if isinstance(itv, Opaque):
                 return Opaque("comprehension over an abstracted value")
             for item in self.iterate(st, itv):
@@ -889,6 +936,11 @@ class PyExec:
                 r = a in b
                 return z3.BoolVal(r if isinstance(op, ast.In) else not r)
             raise CheckerError("'in' on symbolic values")
+        if isinstance(a, SymArr) or isinstance(b, SymArr):
+            A, B = (a, b) if isinstance(a, SymArr) else (b, a)
+            if isinstance(B, SymArr):
+                return SymArr(A.shape, (lambda *i, A=A, B=B: self.compare(op, A.fn(*i), B.fn(*i))), "elementwise comparison")
+            return SymArr(A.shape, (lambda *i, A=A, B=B: self.compare(op, A.fn(*i), B)), "elementwise comparison")
         if isinstance(a, Opaque) or isinstance(b, Opaque):
             return Opaque("comparison with an abstracted value")
         if (isinstance(a, Ref) or isinstance(b, Ref)) and st is not None:
@@ -1089,6 +1141,31 @@ class PyExec:
         raise CheckerError("dot of shapes %s %s" % (A.shape, B.shape))
 
     def getitem(self, st, o, idx):
+        if isinstance(o, SymArr):
+            if not isinstance(idx, tuple):
+                idx = (idx,)
+            if any(isinstance(i, slice) for i in idx):
+                keep = [k for k, i in enumerate(idx) if isinstance(i, slice)]
+                fixed = {k: num(i) for k, i in enumerate(idx) if not isinstance(i, slice)}
+                nd_ = len(o.shape)
+
+                def fn(*sub, o=o, keep=keep, fixed=fixed, nd_=nd_):
+                    full = []
+                    it = iter(sub)
+                    for k in range(nd_):
+                        full.append(fixed[k] if k in fixed else next(it))
+                    return o.fn(*full)
+                return SymArr([o.shape[k] for k in keep] + list(o.shape[len(idx):]), fn, "slice of " + o.why)
+            ii = [num(i) for i in idx]
+            if len(ii) == len(o.shape):
+                for i_, s_ in zip(ii, o.shape):
+                    self.oblige("bounds", st, z3.And(i_ >= 0, i_ < num(s_)), None, label="index into " + o.why)
+                return o.fn(*ii)
+            return SymArr(o.shape[len(ii):], (lambda *sub, o=o, ii=ii: o.fn(*ii, *sub)), "row of " + o.why)
+        if isinstance(o, SymFn):
+            return o.fn(num(idx))
+        if isinstance(o, tuple) and len(o) == 2 and isinstance(o[0], str) and o[0] == "where-first":
+            return o[1]
         if isinstance(o, Opaque):
             return Opaque("view of " + o.why, buf=o.buf)       # numpy basic indexing returns a view
         if isinstance(idx, Opaque) or (isinstance(idx, tuple) and any(isinstance(i, Opaque) for i in idx)):
@@ -1315,6 +1392,10 @@ class PyExec:
                 raise
         if name == "zip":
             return list(zip(*[self.iterate(st, a) for a in args]))
+        if name == "enumerate" and isinstance(args[0], SymArr):
+            return SymEnum(args[0])
+        if name == "len" and isinstance(args[0], SymArr):
+            return num(args[0].shape[0])
         if name == "enumerate":
             if isinstance(args[0], Opaque):
                 return Opaque("enumerate(" + args[0].why + ")", buf=args[0].buf)
@@ -1390,6 +1471,26 @@ class PyExec:
 
     def modcall(self, st, name, args, kwargs, node):
         short = name.split(".")[-1]
+        if args and isinstance(args[0], SymArr):
+            if short in ("array", "asarray"):
+                return args[0]
+            if short == "where":
+                # numpy contract of np.where(b)[0][0] for a 1-D boolean array: the first index where b holds
+                # (IndexError if there is none: the normal path continues only if one exists)
+                b = args[0]
+                gv = getattr(self, "generic_vars", [])
+                k_ = next(Ref._ids)
+                if gv:
+                    W = z3.Function("where_first!%d" % k_, *([z3.IntSort()] * len(gv)), z3.IntSort())
+                    r = W(*gv)
+                else:
+                    r = z3.Int("where_first!%d" % k_)
+                t = z3.Int("t!%d" % k_)
+                st.pc.append(z3.And(r >= 0, r < num(b.shape[0]), truth(b.fn(r)),
+                                    z3.ForAll([t], z3.Implies(z3.And(t >= 0, t < r), z3.Not(truth(b.fn(t)))))))
+                return (("where-first", r),)
+        if short == "array" and args and isinstance(args[0], SymArr):
+            return args[0]
         if name.startswith("numpy") or name.startswith("math") or name.startswith("np"):
             if short == "sqrt" and not isinstance(args[0], Ref):
                 return self.mathf(st, "sqrt", args[0], node)
